@@ -75,6 +75,17 @@ func main() {
 		// go tool buildid <garble binary>
 		fmt.Println(c.BuildID)
 	case "list":
+		deps := false
+		for _, a := range args {
+			if a == "-deps" {
+				deps = true
+			}
+		}
+		if !deps {
+			// garble's secondary listing of runtime-linknamed std packages (file-argument
+			// builds): nothing to add.
+			os.Exit(0)
+		}
 		for _, rec := range c.List {
 			os.Stdout.Write(rec)
 			os.Stdout.Write([]byte("\n"))
